@@ -362,6 +362,31 @@ def misc(res):
             pass
         except Exception as ex:
             res.violation(f"C10|misuse|{what}|{type(ex).__name__}", f"{what} free parameter raised {type(ex).__name__} instead of ParameterError", {"misc": what})
+    # binding by parameter object: the program's own parameter is accepted, a parameter of another program is unknown
+    for what in ("own-object", "foreign-object"):
+        res.n += 1
+        res.nt += 1
+        P = sf.Program(1)
+        with P.context as q:
+            ops.Xgate(P.params("own_p")) | q[0]
+        O = sf.Program(1)
+        with O.context as q:
+            ops.Xgate(O.params("other_p")) | q[0]
+        key = P.params("own_p") if what == "own-object" else O.params("other_p")
+        args = {key: 0.4} if what == "own-object" else {"own_p": 0.4, key: 1.5}
+        try:
+            with warnings.catch_warnings():
+                warnings.simplefilter("ignore")
+                x = float(sf.Engine("gaussian").run(P, args=args).state.quad_expectation(0, 0)[0])
+            if what == "foreign-object":
+                res.violation("C10|misuse|foreign-parameter-object-accepted", f"binding a FreeParameter that belongs to another program was accepted (x = {x:.3f})", {"misc": what})
+            elif abs(x - 0.4) > 1e-9:
+                res.violation("C10|free|binding-by-object", f"binding the program's own parameter object to 0.4 gives x = {x:.3f}", {"misc": what})
+        except ParameterError:
+            if what == "own-object":
+                res.violation("C10|free|binding-by-object", "binding the program's own parameter object raised ParameterError", {"misc": what})
+        except Exception as ex:  # noqa: BLE001
+            res.violation(f"C10|misuse|{what}|{type(ex).__name__}", f"{what} binding raised {type(ex).__name__} instead of ParameterError", {"misc": what})
     # two programs sharing a parameter name keep their own bindings
     res.n += 1
     P = sf.Program(1)
@@ -410,6 +435,52 @@ def misc(res):
                 res.violation("C10|par_regref_deps", f"par_regref_deps({expr_str(e)}) = {deps}, expected {exp}", {"misc": "deps", "expr": e})
     return res
 
+# ----------------------------------------------------------------------------- (F) values of multi-mode measurements
+def multi_mode_values(res):
+    """one photon-counting / threshold command on every ordered tuple of >= 2 of 3 modes: the sampler answers column j
+    with 10 + j (the j-th listed mode); q[m].par must evaluate to the outcome of ITS mode, in RegRef.val and in a
+    feed-forward gate"""
+    import strawberryfields.backends.gaussianbackend.backend as gb
+
+    def fake(cov, samples, *a, **kw):
+        return np.array([[10 + j for j in range(cov.shape[0] // 2)]] * samples)
+
+    for which in ("MeasureFock", "MeasureThreshold"):
+        for k in (2, 3):
+            for modes in itertools.permutations(range(3), k):
+                res.n += 1
+                res.nt += 1
+                case = {"multi": which, "modes": list(modes)}
+                prog = sf.Program(4)
+                w = {m: 7**i for i, m in enumerate(sorted(modes))}
+                with prog.context as q:
+                    ops.Squeezed(0.3, 0.0) | q[0]
+                    ops.BSgate(0.5, 0.2) | (q[0], q[1])
+                    getattr(ops, which)() | tuple(q[m] for m in modes)
+                    for m in sorted(modes):
+                        ops.Xgate(0.01 * w[m] * q[m].par) | q[3]
+                sh, st = gb.hafnian_sample_state, gb.torontonian_sample_state
+                gb.hafnian_sample_state, gb.torontonian_sample_state = fake, fake
+                try:
+                    with warnings.catch_warnings():
+                        warnings.simplefilter("ignore")
+                        r = sf.Engine("gaussian").run(prog)
+                except Exception as ex:  # noqa: BLE001
+                    res.violation(f"C10|multi-mode-measurement|raises|{type(ex).__name__}", f"{which} | {list(modes)} followed by feed-forward raised {ex!r}", case)
+                    continue
+                finally:
+                    gb.hafnian_sample_state, gb.torontonian_sample_state = sh, st
+                exp = {m: 10 + j for j, m in enumerate(modes)}
+                vals = {m: int(np.ravel(prog.register[m].val)[0]) for m in modes}
+                if vals != exp:
+                    res.violation(f"C10|multi-mode-measurement|regref-value|{which}", f"{which} | {list(modes)} with the sampler answering the j-th listed mode with 10+j: RegRef values {vals}, expected {exp}", case)
+                    continue
+                x = float(r.state.quad_expectation(3, 0)[0])
+                ex_x = 0.01 * sum(w[m] * exp[m] for m in modes)
+                if abs(x - ex_x) > 1e-9:
+                    res.violation(f"C10|multi-mode-measurement|feed-forward|{which}", f"{which} | {list(modes)}: feed-forward displaced mode 3 by {x:.4f}, the outcomes of the referenced modes give {ex_x:.4f}", case)
+    return res
+
 
 def run(ctx):
     quick = ctx.tier == "quick"
@@ -434,6 +505,7 @@ def run(ctx):
         ctx.add(r)
     ctx.cov["histories"] = len(hs)
     ctx.add(misc(Res()))
+    ctx.add(multi_mode_values(Res()))
     ctx.assumptions += [
         "expressions are substituted independently with sympy (xreplace + float) to build the numeric twin; homodyne on the Gaussian simulator projects on a finitely squeezed state (eps = 2e-4), identical in both programs; the comparison with the phase-space reference (ideal projection) therefore uses 1e-5",
         "post-selected outcomes (select) stand for measured values; numpy.random owned by the harness",
@@ -448,6 +520,9 @@ def replay(case):
         return [(s, w) for s, w, c in r.viol if c["route"] == case["route"] and c["binding"] == case["binding"]]
     if "hist" in case:
         run_history(tuple(case["hist"]), res, case.get("measured_mode", 0))
+    elif "multi" in case:
+        r = multi_mode_values(Res())
+        return [(s, w) for s, w, c in r.viol if c["multi"] == case["multi"] and c["modes"] == case["modes"]]
     else:
         res = misc(Res())
     return [(s, w) for s, w, _ in res.viol]
